@@ -22,7 +22,8 @@ Pays7 == <<"none", "child", "childtext", "iqchild">>
 Reads7 == <<"none", "one", "all", "over">>
 WSeq7 == <<"none", "reply", "errreply", "otherid", "get", "set", "kth", "first", "nested",
            "notype", "bogustype", "foreign">>
-Rets7 == <<"ok", "err">>
+Rets7 == <<"ok", "err", "stanzaerr">>
+Muts7 == <<"none", "type", "name", "id", "from", "clear">>
 ModeSeq7 == <<"plain", "muxreg", "muxunreg">>
 (* the kinds of session: initiated client and server streams, the WebSocket framing,  *)
 (* received client and server streams, a client stream made by the library's own     *)
@@ -33,7 +34,7 @@ ASSUME \A i \in 1..Len(Sess7) : ValidSess(Sess7[i])
 
 (* every vector is followed by a sentinel request: it must still be answered unless   *)
 (* the stream was terminated by a stream error                                        *)
-Sentinel == [e |-> El7("iq", "get", "zz", "peer", "full", "own", "child"), p |-> Prog7("all", "reply", "ok")]
+Sentinel == [e |-> El7("iq", "get", "zz", "peer", "full", "own", "child"), p |-> Prog7("all", "reply", "ok", "none")]
 
 (* The reply rule does not concern how the stream ends: on the TCP framing the peer   *)
 (* sends its closing tag after the sentinel, on the WebSocket framing (whose closing  *)
@@ -46,38 +47,39 @@ Vec7(e, p, mode, s) ==
    acc |-> SetToSeq(C07_RepliesSeq(<<[e |-> e, p |-> p], Sentinel>>, mode))]
 
 (* quick: every (type, id, writes, return, mode) of an iq, each with K7 derived       *)
-(* combinations of (session, from, to, namespace, payload, read): for every base the  *)
-(* 30 (session, from) pairs once, the other dimensions rotating against them          *)
-NBase7 == 6 * 4 * 12 * 2 * 3
+(* combinations of (session, from, to, namespace, payload, read, mutation): for every *)
+(* base the 30 (session, from) pairs once and every mutation of the start element 5   *)
+(* times, the other dimensions rotating against them                                  *)
+NBase7 == 6 * 4 * 12 * 3 * 3
 K7 == 30
 N7Quick == NBase7 * K7
 V7QuickAt(i) ==
-   LET t == D(i, 1, 6)  id == D(i, 6, 4)  w == D(i, 24, 12)  r == D(i, 288, 2)  m == D(i, 576, 3)
+   LET t == D(i, 1, 6)  id == D(i, 6, 4)  w == D(i, 24, 12)  r == D(i, 288, 3)  m == D(i, 864, 3)
        j == D(i, NBase7, K7)
        c == t + id + w + r + m + Seed
    IN Vec7(El7("iq", Types7[t + 1], Ids7[id + 1], Froms7[((j + c \div 6) % 5) + 1], Tos7[((j \div 3 + c) % 3) + 1],
                ENS7[((j \div 6 + c) % 3) + 1], Pays7[((c \div 3 + j) % 4) + 1]),
-           Prog7(Reads7[((c + 2 * j + j \div 3) % 4) + 1], WSeq7[w + 1], Rets7[r + 1]),
+           Prog7(Reads7[((c + 2 * j + j \div 3) % 4) + 1], WSeq7[w + 1], Rets7[r + 1], Muts7[((j \div 5 + c) % 6) + 1]),
            ModeSeq7[m + 1], Sess7[((j + c) % 6) + 1])
 (* thorough: the full product of the element and program dimensions, each with 15     *)
 (* derived (session, from, to, namespace) combinations                                *)
-NFull7 == 6 * 4 * 4 * 4 * 12 * 2 * 3
+NFull7 == 6 * 4 * 4 * 4 * 12 * 3 * 3
 N7Full == NFull7 * 15
 V7FullAt(i) ==
    LET j == D(i, NFull7, 15)
-       c == D(i, 1, 6) + D(i, 6, 4) + D(i, 24, 4) + D(i, 96, 4) + D(i, 384, 12) + D(i, 4608, 2) + D(i, 9216, 3) + Seed
+       c == D(i, 1, 6) + D(i, 6, 4) + D(i, 24, 4) + D(i, 96, 4) + D(i, 384, 12) + D(i, 4608, 3) + D(i, 13824, 3) + Seed
    IN Vec7(El7("iq", Types7[D(i, 1, 6) + 1], Ids7[D(i, 6, 4) + 1], Froms7[((j + c \div 6) % 5) + 1], Tos7[((j \div 3 + c) % 3) + 1],
                ENS7[((j \div 6 + c) % 3) + 1], Pays7[D(i, 24, 4) + 1]),
-           Prog7(Reads7[D(i, 96, 4) + 1], WSeq7[D(i, 384, 12) + 1], Rets7[D(i, 4608, 2) + 1]),
-           ModeSeq7[D(i, 9216, 3) + 1], Sess7[((j + c) % 6) + 1])
+           Prog7(Reads7[D(i, 96, 4) + 1], WSeq7[D(i, 384, 12) + 1], Rets7[D(i, 4608, 3) + 1], Muts7[((j + c \div 2) % 6) + 1]),
+           ModeSeq7[D(i, 13824, 3) + 1], Sess7[((j + c) % 6) + 1])
 (* other stanzas and foreign elements never trigger an automatic reply *)
 Kinds7 == << <<"msg", "chat">>, <<"pres", "">>, <<"other", "">>, <<"msg", "error">> >>
-V7Other == [i \in 1..(4 * 2 * 12 * 2 * 3 * 6) |->
+V7Other == [i \in 1..(4 * 2 * 12 * 3 * 3 * 6) |->
    LET k == Kinds7[D(i, 1, 4) + 1] IN
    Vec7(El7(k[1], k[2], IF D(i, 4, 2) = 0 THEN "none" ELSE "a", Froms7[(i % 5) + 1], Tos7[(i % 3) + 1],
             IF k[1] # "other" /\ i % 7 = 0 THEN "other" ELSE "own", "child"),
-        Prog7(Reads7[((i % 4)) + 1], WSeq7[D(i, 8, 12) + 1], Rets7[D(i, 96, 2) + 1]),
-        ModeSeq7[D(i, 192, 3) + 1], Sess7[((D(i, 576, 6) + Seed) % 6) + 1])]
+        Prog7(Reads7[((i % 4)) + 1], WSeq7[D(i, 8, 12) + 1], Rets7[D(i, 96, 3) + 1], Muts7[(i % 6) + 1]),
+        ModeSeq7[D(i, 288, 3) + 1], Sess7[((D(i, 864, 6) + Seed) % 6) + 1])]
 
 N7 == IF Tier = "quick" THEN N7Quick ELSE N7Full
 V7At(i) == IF Tier = "quick" THEN V7QuickAt(i) ELSE V7FullAt(i)
